@@ -51,12 +51,122 @@ let show_result = function
 
 let eqs_of mask vals = Stdlib.List.filter_map (fun i -> if (mask lsr i) land 1 = 1 then Some (nat i, Stdlib.List.nth vals i) else None) [0; 1; 2; 3]
 
-let run_table_op (t : table ref) (text : string) : string =
+
+(* ------------------------------------------------------------------ the table-level L1 model (TableOps.v) run in parallel:
+   addresses are fresh numbers, contents live in a Hashtbl; every failure schedule (Reserve throws; the s-th index step
+   throws) is applied first for fault-injected ops, then the failure-free schedule.  Its refusal verdict and rows are
+   cross-checked with TableSpec, and the content of every index is folded into the printed digest. *)
+module TO = TableOps
+module IM = IndexModel
+type tops = { mutable st : TO.tstate; content : (int, BinNums.coq_Z list) Hashtbl.t; mutable next : int; mutable broken : string }
+let to_ord (t : nat) : nat = nat ((ofnat t) * 5 + 1)
+let to_reach _ _ = true
+let tops_ct (tp : tops) : BinNums.coq_Z -> BinNums.coq_Z list = fun z -> try Hashtbl.find tp.content (zi z) with Not_found -> []
+let tops_new () =
+  let tp = { st = { TO.trows = []; TO.tidx = IM.empty_istate; TO.tct = (fun _ -> []) }; content = Hashtbl.create 64; next = 0; broken = "" } in
+  tp.st <- { tp.st with TO.tct = tops_ct tp }; tp
+let tops_set tp rows idx = tp.st <- { TO.trows = rows; TO.tidx = idx; TO.tct = tops_ct tp }
+let tops_fresh tp (r : BinNums.coq_Z list) = let a = tp.next in tp.next <- a + 1; Hashtbl.replace tp.content a r; z_of_int a
+let nofail = { TO.f_reserve = false; TO.f_step = None }
+(* run op under every failure schedule in turn, then without failure *)
+let tops_faulty tp inject (run : TO.tfail -> TO.tstate -> TO.tstate * TO.tresult) : TO.tresult =
+  if inject then begin
+    let before = Stdlib.List.map zi tp.st.TO.trows in
+    let check (st', r) = (match r with TO.TOk -> tp.broken <- "a failing schedule was accepted" | _ -> ());
+      if Stdlib.List.map zi st'.TO.trows <> before then tp.broken <- "rows changed by a failed schedule";
+      tops_set tp st'.TO.trows st'.TO.tidx in
+    (match run { TO.f_reserve = true; TO.f_step = None } tp.st with (st', TO.TThrown) -> check (st', TO.TThrown) | _ -> ());
+    let nsteps = Stdlib.List.length tp.st.TO.tidx.IM.uhs + Stdlib.List.length tp.st.TO.tidx.IM.mhs + 1 in
+    for s = 0 to nsteps do
+      match run { TO.f_reserve = false; TO.f_step = Some (nat s) } tp.st with
+      | (st', TO.TThrown) -> check (st', TO.TThrown)
+      | _ -> ()
+    done
+  end;
+  let (st', r) = run nofail tp.st in
+  tops_set tp st'.TO.trows st'.TO.tidx; r
+let tops_index_digest tp : int =
+  let pos = Hashtbl.create 64 in
+  Stdlib.List.iteri (fun i a -> Hashtbl.replace pos (zi a) i) tp.st.TO.trows;
+  let p a = try Hashtbl.find pos (zi a) with Not_found -> -1 in
+  let d = ref 0 in
+  Stdlib.List.iteri (fun j u ->
+    let ps = Stdlib.List.sort compare (Stdlib.List.map (fun e -> p e.IM.eraw) u.IM.uents) in
+    d := fold_digest !d (7000 + j); Stdlib.List.iter (fun q -> d := fold_digest !d (q + 1)) ps) tp.st.TO.tidx.IM.uhs;
+  Stdlib.List.iteri (fun j m ->
+    let groups = Stdlib.List.map (fun g -> Stdlib.List.sort compare (Stdlib.List.map p (g.IM.gkey :: g.IM.gvals))) m.IM.mgroups in
+    let groups = Stdlib.List.sort compare groups in
+    d := fold_digest !d (9000 + j);
+    Stdlib.List.iter (fun g -> d := fold_digest !d (5000 + Stdlib.List.length g); Stdlib.List.iter (fun q -> d := fold_digest !d (q + 1)) g) groups) tp.st.TO.tidx.IM.mhs;
+  !d
+(* apply the operation `ws` (already known to be well-formed for the L0 model) ; returns a short verdict string *)
+let tops_apply tp (ws : string list) : string =
+  let rows = tp.st.TO.trows in
+  let len = Stdlib.List.length rows in
+  let ct = tops_ct tp in
+  let res_str = function TO.TOk -> "ok" | TO.TRefused (r, j) ->
+      let rec find i = function [] -> -1 | x :: l -> if zi x = zi r then i else find (i + 1) l in
+      Printf.sprintf "conflict %d %d" (find 0 rows) (ofnat j)
+    | TO.TThrown -> "thrown" in
+  let filter_by keepf = tp.st <- TO.t_filter tp.st keepf; tops_set tp tp.st.TO.trows tp.st.TO.tidx in
+  match ws with
+  | "A" :: f :: r -> let raw = tops_fresh tp (row_of r) in
+    res_str (tops_faulty tp (f <> "0") (fun fl st -> TO.t_insert to_ord to_reach fl st (nat len) raw))
+  | "I" :: f :: n :: r -> let n = int_of_string n in if n > len then "invalid" else
+    let raw = tops_fresh tp (row_of r) in
+    res_str (tops_faulty tp (f <> "0") (fun fl st -> TO.t_insert to_ord to_reach fl st (nat n) raw))
+  | "U" :: f :: n :: r -> let n = int_of_string n in if n >= len then "invalid" else
+    let raw = tops_fresh tp (row_of r) in
+    res_str (tops_faulty tp (f <> "0") (fun fl st -> TO.t_update_row to_ord to_reach fl st (nat n) raw))
+  | ["C"; f; n; c; v] -> let n = int_of_string n and c = int_of_string c in if n >= len then "invalid" else begin
+      let raw = Stdlib.List.nth rows n in
+      let r = tops_faulty tp (f <> "0") (fun fl st -> TO.t_update_col to_ord to_reach fl st (nat n) (nat c) (z_of_string v)) in
+      (match r with TO.TOk ->
+         let old = ct raw in
+         Hashtbl.replace tp.content (zi raw) (Stdlib.List.mapi (fun i x -> if i = c then z_of_string v else x) old)
+       | _ -> ());
+      res_str r end
+  | [("R" | "X"); f; n; keep] -> let n = int_of_string n in if n >= len then "invalid" else
+    (match tops_faulty tp (f <> "0") (fun fl st -> TO.t_remove to_reach fl st (nat n) (keep <> "0")) with TO.TOk -> "ok" | r -> res_str r)
+  | ["RR"; _; n; k] -> let n = int_of_string n and k = int_of_string k in if n + k > len then "invalid" else begin
+      let gone = Stdlib.List.filteri (fun i _ -> i >= n && i < n + k) rows |> Stdlib.List.map zi in
+      filter_by (fun a -> not (Stdlib.List.mem (zi a) gone)); "ok" end
+  | "RP" :: _ :: p -> let pr = fst (parse_pred p) in filter_by (fun a -> not (evalp pr (ct a))); "ok"
+  | "CF" :: _ :: p -> let pr = fst (parse_pred p) in filter_by (fun a -> evalp pr (ct a)); "ok"
+  | "AS" :: _ :: ns -> let ns = Stdlib.List.map int_of_string ns in
+    if Stdlib.List.exists (fun n -> n >= len) ns then "invalid" else begin
+      let seen = ref [] in
+      Stdlib.List.iter (fun n -> if not (Stdlib.List.mem n !seen) then seen := !seen @ [n]) ns;
+      let addrs = Stdlib.List.map (fun n -> Stdlib.List.nth rows n) !seen in
+      let keepset = Stdlib.List.map zi addrs in
+      filter_by (fun a -> Stdlib.List.mem (zi a) keepset);
+      tops_set tp addrs tp.st.TO.tidx; "ok" end
+  | ["CL"] -> tp.st <- TO.t_clear tp.st; tops_set tp tp.st.TO.trows tp.st.TO.tidx; "ok"
+  | ["CP"; _] -> "ok"
+  | "IU" :: cs -> let cols = Stdlib.List.map nat (fst (cols_until_colon cs [])) in
+    let (s', r) = IM.add_unique_index to_ord to_reach ct tp.st.TO.tidx cols rows in
+    tops_set tp rows s';
+    (match r with None -> "ok" | Some _ -> "dup")
+  | "IM" :: cs -> let cols = Stdlib.List.map nat (fst (cols_until_colon cs [])) in
+    tops_set tp rows (IM.add_multi_index to_ord to_reach ct tp.st.TO.tidx cols rows); "ok"
+  | ["DU"] -> let s = tp.st.TO.tidx in tops_set tp rows { s with IM.uhs = [] }; "ok"
+  | ["DM"] -> let s = tp.st.TO.tidx in tops_set tp rows { s with IM.mhs = [] }; "ok"
+  | _ -> "?"
+
+let run_table_op (t : table ref) (tp : tops) (text : string) : string =
   let ws = words text in
   let mut o =
     let (t', res) = step !t o in
     t := t';
-    Printf.sprintf "%s #%d:%d" (show_result res) (Stdlib.List.length t'.rows) (table_digest t') in
+    (* the table-level L1 model must agree with the L0 specification on the verdict and on the rows *)
+    let v = tops_apply tp ws in
+    let expect = (match res with ROk | RRow _ | RCount _ -> "ok" | RConflict (n, j) -> Printf.sprintf "conflict %d %d" (ofnat n) (ofnat j)
+                  | RDup _ -> "dup" | RInvalid -> "invalid") in
+    let rows_l1 = Stdlib.List.map (fun a -> tops_ct tp a) tp.st.TO.trows in
+    let same_rows = (Stdlib.List.map (Stdlib.List.map zi) rows_l1 = Stdlib.List.map (Stdlib.List.map zi) t'.rows) in
+    let diverge = if v <> expect then Printf.sprintf " !MODEL-TABLEOPS verdict %s vs %s" v expect
+                  else if not same_rows then " !MODEL-TABLEOPS rows differ" else if tp.broken <> "" then " !MODEL-TABLEOPS " ^ tp.broken else "" in
+    Printf.sprintf "%s #%d:%d:%d%s" (show_result res) (Stdlib.List.length t'.rows) (table_digest t') (tops_index_digest tp) diverge in
   match ws with
   | "A" :: _ :: r -> mut (OAdd (row_of r))
   | "I" :: _ :: n :: r -> mut (OInsert (nat (int_of_string n), row_of r))
@@ -106,7 +216,8 @@ let run_table_op (t : table ref) (text : string) : string =
       Printf.sprintf "fm %d %d" (Stdlib.List.length ps) (pos_digest ps)
     end
   | "P" :: distinct :: mask :: p ->
-    let ks = project !t (distinct <> "0") (fst (parse_pred p)) (cols_of_mask (int_of_string mask)) in
+    (* the model of pvProject's loop (ProjectModel.project_loop), proved equal to TableSpec.project *)
+    let ks = ProjectModel.project_loop (distinct <> "0") (cols_of_mask (int_of_string mask)) (fst (parse_pred p)) !t.rows [] in
     Printf.sprintf "p %d %d" (Stdlib.List.length ks) (keys_digest ks)
   | "S" :: mask :: rest ->
     let (p, rest') = parse_pred rest in
@@ -127,7 +238,8 @@ let run_table_case (line : string) : string =
   match split_on '|' line with
   | _ :: ops ->
     let t = ref empty_table in
-    Stdlib.String.concat "|" (Stdlib.List.map (fun o -> run_table_op t o) ops)
+    let tp = tops_new () in
+    Stdlib.String.concat "|" (Stdlib.List.map (fun o -> run_table_op t tp o) ops)
   | [] -> ""
 
 let () = iter_lines (fun line ->
